@@ -17,21 +17,21 @@ theorem C12_iterate_eq_sequential (o : Opts) (hA : AlwaysParticles o) (ops : Lis
     (hsr : ∀ k, sr = some k → 1 ≤ k) :
     iterAll (run o ops) sr =
       ((List.range (numEvents (run o ops))).map (fun i t => getEvent (run o ops) i t), Err.stop) :=
-  iterAll_eq (good_run hA ops) sr hsr
+  iterAll_eq (good_run hA ops).rd sr hsr
 
 /-- `f[key]` for `-n ≤ key < n` is event `key mod n` of the sequential pass -/
 theorem C12_getitem_int (o : Opts) (hA : AlwaysParticles o) (ops : List Op) (key : Int)
     (h1 : -(numEvents (run o ops) : Int) ≤ key) (h2 : key < numEvents (run o ops)) :
     getitemInt (run o ops) key =
       .ok (fun t => getEvent (run o ops) (key % (numEvents (run o ops) : Int)).toNat t) :=
-  getitemInt_eq (good_run hA ops) key h1 h2
+  getitemInt_eq (good_run hA ops).rd key h1 h2
 
 /-- … and `IndexError` outside that range -/
 theorem C12_getitem_int_out_of_range (o : Opts) (hA : AlwaysParticles o) (ops : List Op) (key : Int)
     (hn : 0 < numEvents (run o ops))
     (h : key < -(numEvents (run o ops) : Int) ∨ (numEvents (run o ops) : Int) ≤ key) :
     getitemInt (run o ops) key = .error .index :=
-  getitemInt_out (good_run hA ops) hn key h
+  getitemInt_out (good_run hA ops).rd hn key h
 
 /-- `f[a':b':c']` — bounds given as `None`, non-negative or negative spellings that normalise to
 `0 ≤ a < b ≤ n`, step `c ≥ 1` (or `None`), file chunk size `None` or `≥ 1` — yields the events
@@ -43,7 +43,7 @@ theorem C12_getitem_slice (o : Opts) (hA : AlwaysParticles o) (ops : List Op) (s
     (hc : oc.getD 1 = c) (hab : a < b) (hbn : b ≤ numEvents (run o ops)) (hc0 : 0 < c) :
     getitemSlice (run o ops) sr oa ob oc =
       ((List.range ((b - a + c - 1) / c)).map (fun k t => getEvent (run o ops) (a + k * c) t), Err.stop) := by
-  have := getitemSlice_eq (good_run hA ops) sr oa ob oc hsr ha hb hc hab hbn hc0
+  have := getitemSlice_eq (good_run hA ops).rd sr oa ob oc hsr ha hb hc hab hbn hc0
   rw [this]; simp [strided, Function.comp_def]
 
 /-- a history written in several append-mode sessions (`reopen` anywhere, also after rejected adds)
@@ -144,7 +144,7 @@ theorem C12_filegen_count_total (files : List File) (frac : Frac)
 
 /-- `EventIterator._load_data` and `__next__` in the source are statement for statement what
 `loadTable` / `next` model (regenerated from `pyrex/io.py` on every run): one block read from the
-smallest start to the end of the last cell with the largest start, every event cut at
+smallest start to the furthest row any cell of the chunk uses (the F20 repair), every event cut at
 `start - tmp_start` (the F8 repair), chunk end `min(start + slice_range, max_events)`, counter reset
 on reload.  Any edit of these statements in `/repo` breaks this theorem. -/
 theorem C12_load_cut_matches_source :
@@ -180,6 +180,55 @@ and by the object-identity probe of the search. -/
 theorem C12_handles_independent (hs : List It) (i j : Nat) (hij : i ≠ j) (it' : It) :
     ((hs.set i it')[j]?).map current = (hs[j]?).map current := by
   rw [List.getElem?_set_ne hij]
+
+/-! ### Arbitrary index cells (analysis look-up tables indexed with `add_analysis_indices`) -/
+
+/-- `_load_data` for one table is right for ARBITRARY index cells — several events sharing rows, cells
+pointing back to earlier rows, overlapping ranges, no ordering whatsoever and no assumption on the
+file: every event of a non-empty chunk `start, start+step, … < end` gets exactly the rows its own
+cell addresses (what `f[i]` reads) -/
+theorem C12_chunk_load_any_index (f : File) (t : Tbl) (s e c : Nat) (hne : strided s e c ≠ []) :
+    loadTable f t s e c = some ((strided s e c).map (fun i => getEvent f i t)) :=
+  loadTable_eq f t s e c hne
+
+/-- hence iteration with any chunk size and every in-claim slice equal the sequential pass for ANY file
+value (any index content in the columns that exist) — the only facts used are that tables without an
+index column read as empty and that a file holding events has the particle group (`Rd f`) -/
+theorem C12_access_paths_any_index (f : File) (hf : Rd f) (sr : Option Int) (hsr : ∀ k, sr = some k → 1 ≤ k) :
+    iterAll f sr = ((List.range f.index.length).map (fun i t => getEvent f i t), Err.stop) ∧
+    ∀ (oa ob oc : Option Int) (a b c : Nat), normIdx (oa.getD 0) f.index.length = a →
+      normIdx (ob.getD f.index.length) f.index.length = b → oc.getD 1 = c → a < b → b ≤ f.index.length → 0 < c →
+      getitemSlice f sr oa ob oc = ((strided a b c).map (fun i t => getEvent f i t), Err.stop) :=
+  ⟨iterAll_eq hf sr hsr, fun oa ob oc a b c ha hb hc hab hbn hc0 => getitemSlice_eq hf sr oa ob oc hsr ha hb hc hab hbn hc0⟩
+
+/-- `_load_data` with the block end it had before the repair 4e94c15 (end of the last cell with the
+largest start) -/
+def loadTableMaxStart (f : File) (t : Tbl) (s e step : Nat) : Option (List (List Row)) :=
+  let cells := (strided s e step).map (fun i => (f.index.getD i IxRow.default) t)
+  match minStart cells, pickEnd cells with
+  | some ts, some c =>
+    let tmp := ((f.rows t).drop ts).take (c.1 + c.2 - ts)
+    some (cells.map (fun sl => (tmp.drop (sl.1 - ts)).take sl.2))
+  | _, _ => none
+
+/-- a look-up table of 6 rows indexed out of event order: cells (0,5), (3,1), (1,2), (4,1), (0,1) -/
+def c12Lookup : File :=
+  { File.empty with
+    rows := fun | .noise => (List.range 6).map (Row.data 0) | _ => [],
+    exists_ := fun | .noise => true | _ => false,
+    cols := [.noise],
+    index := [(0, 5), (3, 1), (1, 2), (4, 1), (0, 1)].map (fun v => fun | .noise => v | _ => (0, 0)),
+    nEvents := 5 }
+
+/-- the minimal input of F20: with chunks of two events the old block end loses the last row of
+event 0 (it reaches further than the event with the largest start), the repaired code returns all
+five rows, as `f[0]` does -/
+theorem C12_block_end_witness :
+    (loadTableMaxStart c12Lookup .noise 0 2 1).map (fun l => (l.getD 0 []).length) = some 4 ∧
+    (loadTable c12Lookup .noise 0 2 1).map (fun l => (l.getD 0 []).length) = some 5 ∧
+    (getEvent c12Lookup 0 .noise).length = 5 ∧
+    loadTable c12Lookup .noise 0 5 2 = some [getEvent c12Lookup 0 .noise, getEvent c12Lookup 2 .noise, getEvent c12Lookup 4 .noise] := by
+  decide
 
 /-! ### The unrepaired `_load_data` (cumulative cut) is wrong: sanity check that the theorems are not vacuous -/
 
